@@ -228,9 +228,18 @@ func powerLossCampaign(p Prog, all bool, variants []int) (crashStats, error) {
 	cs.points = total
 	var pts []int
 	if all {
-		for i := 1; i <= total; i++ {
+		// every hook; workloads with more than maxLossPoints hooks (each loss point re-runs the workload
+		// up to that hook under the recorder, so the cost is quadratic) get every k-th hook, starting
+		// at a generated offset, plus all aimed hooks below
+		step := (total + maxLossPoints - 1) / maxLossPoints
+		off := 0
+		if len(p.Points) > 0 && step > 1 {
+			off = p.Points[0] % step
+		}
+		for i := 1 + off; i <= total; i += step {
 			pts = append(pts, i)
 		}
+		cs.stride = step
 	} else {
 		pts = stratified(dry.AckPath, p.Points, total)
 	}
@@ -312,6 +321,8 @@ func powerLossCampaign(p Prog, all bool, variants []int) (crashStats, error) {
 	return cs, nil
 }
 
+const maxLossPoints = 500
+
 // batchRotationPoints returns, from the site log of the dry run, the hook index of the "write.lsm.done"
 // hook of every write batch in which the memtable was rotated after at least one request of the same
 // batch had already been written (hooks of other goroutines interleave; their names differ).
@@ -364,7 +375,7 @@ var wPower = map[string]int{"txn": 10, "burst": 3, "asyncburst": 3, "batchrot": 
 func TestC10_PowerLoss(t *testing.T) {
 	all := core.Thorough()
 	core.Run(t, "C10", "powerloss",
-		"rapid-generated single-committer workloads with SyncWrites=true (transactions; asynchronous bursts committed back to back with CommitWith, which form write batches of several requests, some sized to fill the memtable so that its rotation falls between two requests of one batch; flushes, compactions, GC, re-opens) run in a child process that maintains a durability shadow: per file the bytes it had when badger announced an msync/fsync of it, per directory the listing at the last directory fsync. At the n-th hook (quick: 6 sampled hooks per workload plus 3 aimed at the end of each of up to two batches that the dry run shows with a rotation between two requests; thorough: every hook) the child materialises the adversarial power-loss image - every file holds exactly its last synced content, a never-synced file reads as zeros (variant 0) or is empty (variant 1) - and dies; the parent opens the image. Oracle as C08: Open succeeds, state = a commit prefix containing every acknowledged commit, structure intact, further commits work. Known finding (strict directory-entry model, variant 2) is handled by a separate witness. Non-trivial = the loss point came after >=1 acknowledged commit.",
+		"rapid-generated single-committer workloads with SyncWrites=true (transactions; asynchronous bursts committed back to back with CommitWith, which form write batches of several requests, some sized to fill the memtable so that its rotation falls between two requests of one batch; flushes, compactions, GC, re-opens) run in a child process that maintains a durability shadow: per file the bytes it had when badger announced an msync/fsync of it, per directory the listing at the last directory fsync. At the n-th hook (quick: 6 sampled hooks per workload plus 3 aimed at the end of each of up to two batches that the dry run shows with a rotation between two requests; thorough: every hook, or every k-th from a generated offset plus all aimed ones for a workload with more than 500 hooks) the child materialises the adversarial power-loss image - every file holds exactly its last synced content, a never-synced file reads as zeros (variant 0) or is empty (variant 1) - and dies; the parent opens the image. Oracle as C08: Open succeeds, state = a commit prefix containing every acknowledged commit, structure intact, further commits work. Known finding (strict directory-entry model, variant 2) is handled by a separate witness. Non-trivial = the loss point came after >=1 acknowledged commit.",
 		func(rt *rapid.T) Prog {
 			return Gen(rt, GenCfg{MinOps: 4, MaxOps: 20, Weights: wPower, AllowEnc: true, NPoints: 6, SyncWrites: true})
 		},
@@ -377,6 +388,9 @@ func TestC10_PowerLoss(t *testing.T) {
 			res := core.Result{NonTrivial: cs.midOp > 0}
 			rec.Add("hooks_in_dry_run", cs.points)
 			rec.Add("loss_runs", cs.runs)
+			if cs.stride > 1 {
+				rec.Add("workloads_enumerated_with_a_stride", 1)
+			}
 			rec.Add("batches_rotated_between_requests", cs.batchRot)
 			rec.Add("loss_runs_aimed_at_such_a_batch", cs.batchRotRuns)
 			for s, n := range cs.sites {
